@@ -1,5 +1,6 @@
 import ComposeVerif.Lemmas.ShortMerge
 import ComposeVerif.Props.C03
+import ComposeVerif.Lemmas.ShortIdem
 /-!
 # C03 — short ≡ long survives the merge of a second document (round 5)
 
@@ -74,6 +75,18 @@ theorem merge_rules_at (n : String) :
     ∧ Merge.ruleAt ["services", n, "build"] = some .build := by
   simp [Merge.ruleAt, Merge.ruleAtIn, TPath.firstMatch, CV.Gen.mergeSpecials, TPath.pmatch, Merge.ruleOfName]
 
+/-- `build.ssh` (repaired in round 5, repo commit 8182cc6: the attribute had no merger, so a list in a second document met
+the canonical mapping of the first and was rejected): the regenerated table sends it to `mergeToSequence`, which reads a
+`KEY=VALUE` list and its mapping alike, in either position -/
+theorem mergeSSH_short_eq_long (mk : Val.KVs → Val.KVs → TPath → Merge.Out Val.KVs) (n id path : String) (x : Val) (p : TPath) :
+    Merge.ruleAt ["services", n, "build", "ssh"] = some .toSeq
+    ∧ Merge.specialStep mk .toSeq x (.seq [.str (id ++ "=" ++ path)]) p = Merge.specialStep mk .toSeq x (.map [(id, .str path)]) p
+    ∧ Merge.specialStep mk .toSeq (.seq [.str (id ++ "=" ++ path)]) x p = Merge.specialStep mk .toSeq (.map [(id, .str path)]) x p
+    ∧ Merge.specialStep mk .toSeq x (.seq [.str "default"]) p = Merge.specialStep mk .toSeq x (.map [("default", .null)]) p := by
+  refine ⟨?_, ?_, ?_, ?_⟩
+  · simp [Merge.ruleAt, Merge.ruleAtIn, TPath.firstMatch, CV.Gen.mergeSpecials, TPath.pmatch, Merge.ruleOfName]
+  all_goals simp [Merge.specialStep, Merge.seqOf, Merge.intoSeq, Merge.mapStrs, Merge.entryStrs, Merge.sortStrs, Merge.insertStr, Merge.fmtV]
+
 /-! ## two documents: `Canonical ∘ Merge ∘ Canonical` at the attribute -/
 
 /-- `depends_on`: whatever the second document says (`doc2`, raw: short or long or malformed), the first document
@@ -102,6 +115,26 @@ theorem twoDocs_networks (mk : Val.KVs → Val.KVs → TPath → Merge.Out Val.K
   constructor
   · simp only [twoDocs, transformServiceNetworks_short_eq_long names hnd, transformServiceNetworks_long_id]
   · simp only [twoDocs, (mergeNetworks_short_eq_long mk names hnd _ p).1]
+
+/-- the long form of `build` is left as it is by the recursive transformer (either `ignoreParseError`) -/
+theorem transformBuild_long_id (ign : Bool) (n s : String) :
+    transform ign ["services", n, "build"] (.map [("context", .str s)]) = .ok (.map [("context", .str s)]) := by
+  have h := (dispatch n "").2.2.2.2.2.2.1
+  have hne : ["services", n, "build"] ≠ TPath.root := by simp [TPath.root]
+  have hk : transformKVs ign ["services", n, "build"] [("context", .str s)] = .ok [("context", .str s)] := by
+    simp [transformKVs, TPath.nextK_of_ne_root _ _ hne, ofList_context, transform, TPath.firstMatch, CV.Gen.transformers,
+      TPath.pmatch, leaf]
+  simp [transform, h, hk, recursesOnMap, bindOut, postMap]
+
+/-- `build`, first and second document, at its position in the tree (the transformer there is the recursive walk) -/
+theorem twoDocs_build (ign : Bool) (mk : Val.KVs → Val.KVs → TPath → Merge.Out Val.KVs) (n s : String) (other : Val) :
+    twoDocs (transform ign ["services", n, "build"]) mk .build (.str s) other ["services", n, "build"]
+      = twoDocs (transform ign ["services", n, "build"]) mk .build (.map [("context", .str s)]) other ["services", n, "build"]
+    ∧ twoDocs (transform ign ["services", n, "build"]) mk .build other (.str s) ["services", n, "build"]
+      = twoDocs (transform ign ["services", n, "build"]) mk .build other (.map [("context", .str s)]) ["services", n, "build"] := by
+  constructor
+  · simp only [twoDocs, transformBuild_short_eq_long, transformBuild_long_id]
+  · simp only [twoDocs, (mergeBuild_short_eq_long mk s _ _).1]
 
 /-- non-vacuity and the seeded scenario on the model: `[db, cache]` then `{db: {condition: service_healthy}}` — only `db` changes -/
 example :
